@@ -144,6 +144,8 @@ Deref(C, loc) == CASE loc[1] = "loc" -> C.loc[loc[2]] [] loc[1] = "th" -> th[loc
 Names(seq) == { seq[i].n : i \in 1..Len(seq) }
 
 RECURSIVE Eval(_, _)
+RECURSIVE Eval0(_, _)
+RECURSIVE ArgVals(_, _, _)
 RECURSIVE EvalList(_, _, _)
 
 \* the location an array-valued expression denotes (for slices and stores), or <<>>
@@ -192,6 +194,19 @@ BinOp(op, n, a, b) ==
 BinOps == {"+", "-", "*", "/", "%", "<<", ">>", "&", "|", "^", "~mod+", "~mod-", "~mod*", "~mod<<", "~sat+", "~sat-",
            "==", "<>", "<", "<=", ">", ">=", "and", "or"}
 
+\* argument record of a user call: list0 of the call node holds Arg nodes
+ArgVals(xs, i, C) == IF i > Len(xs) THEN [v |-> <<>>, f |-> {}]
+                     ELSE LET a == Nd(xs[i])
+                              isio == IsReaderTy(Nd(a.r).ty) \/ IsWriterTy(Nd(a.r).ty)
+                              r == IF isio THEN R(0) ELSE Eval(a.r, C)
+                              rest == ArgVals(xs, i + 1, C)
+                          IN [v |-> <<[n |-> a.c, v |-> r.v]>> \o rest.v, f |-> r.f \cup rest.f]
+ArgFun(seq) == [x \in { seq[i].n : i \in 1..Len(seq) } |-> (CHOOSE p \in { seq[i] : i \in 1..Len(seq) } : p.n = x).v]
+
+\* parameter refinements of a user call
+ParamViol(f, argf) == \E i \in 1..Len(f.params) :
+    LET p == f.params[i] IN IsNumTy(p.ty) /\ p.n \in DOMAIN argf /\ ~InRange(argf[p.n], TyRange(p.ty))
+
 \* built-in pure methods: recv is the evaluated receiver, rt its type node
 Method(C, n, recvE, meth, argsE) ==
     LET rt == Nd(recvE).ty
@@ -210,7 +225,15 @@ Method(C, n, recvE, meth, argsE) ==
        ELSE IF meth = "is_suspension" THEN Un(rv, IF rv.v \in { P.susps[i] : i \in 1..Len(P.susps) } THEN 1 ELSE 0)
        ELSE F(U("method " \o meth))
 
+\* C.rc = TRUE: also check the checker's claimed range (MBounds) of every numeric node that is evaluated (C01).
+\* Calls with an effect are never evaluated here (they are statements).
 Eval(e, C) ==
+    LET n == Nd(e)
+        r == Eval0(e, C)
+    IN IF C.rc /\ r.f = {} /\ IsNumTy(n.ty) /\ ((n.hlo = 1 /\ r.v < n.lo) \/ (n.hhi = 1 /\ r.v > n.hi))
+       THEN AddF(r, {[k |-> "range", d |-> ToString(e)]}) ELSE r
+
+Eval0(e, C) ==
     LET n == Nd(e) IN
     IF n.hcv = 1 /\ (IsNumTy(n.ty) \/ IsIdealTy(n.ty)) THEN R(n.cv)
     ELSE IF n.hcv = 2 THEN F(OOMF)
@@ -248,7 +271,16 @@ Eval(e, C) ==
          IF x.f # {} THEN x
          ELSE IF IsNumTy(n.r) /\ ~InRange(x.v, TyRange(n.r)) THEN AddF(x, {V("conversion")}) ELSE x
     ELSE IF n.a = "("
-    THEN IF Nd(n.l).a = "." THEN Method(C, n, Nd(n.l).l, Nd(n.l).c, n.x) ELSE F(U("call in expression"))
+    THEN IF Nd(n.l).a = "." /\ Nd(Nd(n.l).l).a = "" /\ Nd(Nd(n.l).l).c = "this" /\ Nd(n.l).c \in DOMAIN P.fmap
+         THEN \* a pure user function inside an expression: interpreted when its body is a single `return e`
+              LET g == P.fmap[Nd(n.l).c]
+                  body == Nd(g.id).z
+              IN IF g.eff # "" \/ Len(body) # 1 \/ Nd(body[1]).k # "Ret" \/ Nd(body[1]).l = 0 THEN F(U("call in expression"))
+                 ELSE LET av == ArgVals(n.x, 1, C) IN
+                      IF av.f # {} THEN [v |-> 0, f |-> av.f]
+                      ELSE IF ParamViol(g, ArgFun(av.v)) THEN F(V("argument"))
+                      ELSE Eval(Nd(body[1]).l, [loc |-> <<>>, args |-> ArgFun(av.v), pz |-> {}, rc |-> C.rc])
+         ELSE IF Nd(n.l).a = "." THEN Method(C, n, Nd(n.l).l, Nd(n.l).c, n.x) ELSE F(U("call in expression"))
     ELSE IF n.ar = "u"
     THEN LET x == Eval(n.r, C) IN
          CASE n.a = "+" -> x
@@ -282,33 +314,9 @@ EvalList(n, C, i) ==
 EvalTop(e, C) == Eval(e, C)
 
 ---------------------------------------------------------------------------
-(* Claimed ranges (C01): every numeric sub-expression of a statement-        *)
-(* position expression must evaluate inside its exported MBounds.            *)
-
-RECURSIVE RangeViol(_, _)
-RangeViol(e, C) ==
-    LET n == Nd(e)
-        lv == IF n.ar = "b" /\ n.a \in {"and", "or"} THEN Eval(n.l, C) ELSE R(0)
-        \* the right operand of a short-circuit operator is only looked at when it is evaluated
-        skipR == n.ar = "b" /\ ((n.a = "and" /\ lv.f = {} /\ lv.v = 0) \/ (n.a = "or" /\ lv.f = {} /\ lv.v = 1))
-        kids == (IF n.l # 0 /\ n.a \notin {".", "("} THEN {n.l} ELSE {})
-                \cup (IF n.m # 0 THEN {n.m} ELSE {})
-                \cup (IF n.r # 0 /\ ~skipR THEN {n.r} ELSE {})
-                \cup (IF n.a = "(" THEN { Nd(n.x[i]).r : i \in 1..Len(n.x) } ELSE IF n.ar = "a" /\ n.a \in {"and", "or"} THEN {} ELSE { n.x[i] : i \in 1..Len(n.x) })
-                \cup (IF n.a = "(" /\ Nd(n.l).a = "." THEN {Nd(n.l).l} ELSE {})
-        sub == UNION { RangeViol(k, C) : k \in { k2 \in kids : Nd(k2).k = "Expr" } }
-        checkable == IsNumTy(n.ty) /\ (n.a # "(" \/ n.eff = "")
-    IN IF n.k # "Expr" THEN {}
-       ELSE IF checkable
-       THEN LET v == Eval(e, C) IN
-            IF v.f # {} THEN sub
-            ELSE IF (n.hlo = 1 /\ v.v < n.lo) \/ (n.hhi = 1 /\ v.v > n.hi) THEN sub \cup {e} ELSE sub
-       ELSE sub
-
----------------------------------------------------------------------------
 (* Frames and control                                                       *)
 
-FuncRec(name) == CHOOSE f \in { P.funcs[i] : i \in 1..Len(P.funcs) } : f.name = name
+FuncRec(name) == P.fmap[name]          \* (the exporter also writes the function table keyed by name)
 
 ZeroOf(l) == IF l.arr > 0 THEN [i \in 1..l.arr |-> 0] ELSE IF l.kind = "status" THEN "ok" ELSE 0
 
@@ -319,7 +327,8 @@ NewFrame(f, args) ==
      pz |-> {}, loops |-> {}, io |-> [k |-> "none"]]
 
 Top == stack[Len(stack)]
-Ctx(fr) == [loc |-> fr.loc, args |-> fr.args, pz |-> fr.pz]
+Ctx(fr) == [loc |-> fr.loc, args |-> fr.args, pz |-> fr.pz, rc |-> TRUE]
+NoRc(C) == [C EXCEPT !.rc = FALSE]
 CtlTop(fr) == fr.ctl[Len(fr.ctl)]
 ListOf(c) == IF c.w = "z" THEN Nd(c.o).z ELSE Nd(c.o).y
 CurStmt(fr) == ListOf(CtlTop(fr))[CtlTop(fr).pc]
@@ -340,8 +349,8 @@ NoFaultRec == [k |-> "none", d |-> ""]
 (* Stores                                                                   *)
 
 \* type node of a local / field / arg
-LocalTy(f, x) == (CHOOSE l \in { f.locals[i] : i \in 1..Len(f.locals) } : l.n = x).ty
-FieldTy(x) == (CHOOSE l \in { P.fields[i] : i \in 1..Len(P.fields) } : l.n = x).ty
+LocalTy(f, x) == f.ltype[x]
+FieldTy(x) == P.ftype[x]
 
 \* Assign value v to the lvalue expression e in frame fr.  Returns [fr, th, f].
 Store(e, v, fr) ==
@@ -376,15 +385,15 @@ Store(e, v, fr) ==
 \* the facts held before statement s that are false now
 FalseFacts(s, C) ==
     { k \in 1..Len(Nd(s).fx) :
-        LET r == EvalTop(Nd(s).fx[k], C) IN r.f = {} /\ r.v # 1 }
+        LET r == EvalTop(Nd(s).fx[k], NoRc(C)) IN r.f = {} /\ r.v # 1 }
 \* facts that cannot be interpreted (unsupported operator, fault inside the fact, poisoned operand)
 OpaqueFacts(s, C) ==
-    { k \in 1..Len(Nd(s).fx) : EvalTop(Nd(s).fx[k], C).f # {} }
+    { k \in 1..Len(Nd(s).fx) : EvalTop(Nd(s).fx[k], NoRc(C)).f # {} }
 
 \* assert / inv / pre / post conditions attached to a node's list y, by keyword
 FalseAsserts(o, kws, C) ==
     { a \in { Nd(o).y[i] : i \in 1..Len(Nd(o).y) } :
-        Nd(a).k = "Assert" /\ Nd(a).a \in kws /\ LET r == EvalTop(Nd(a).r, C) IN r.f = {} /\ r.v # 1 }
+        Nd(a).k = "Assert" /\ Nd(a).a \in kws /\ LET r == EvalTop(Nd(a).r, NoRc(C)) IN r.f = {} /\ r.v # 1 }
 
 ---------------------------------------------------------------------------
 (* Returning to the caller / the environment                                *)
@@ -441,20 +450,6 @@ Deliver(fr, kind, st, rv) ==
 (* One step of the top frame                                                *)
 
 HasSaved(name) == "fn" \in DOMAIN saved[name]
-
-\* argument record of a user call: list0 of the call node holds Arg nodes
-RECURSIVE ArgVals(_, _, _)
-ArgVals(xs, i, C) == IF i > Len(xs) THEN [v |-> <<>>, f |-> {}]
-                     ELSE LET a == Nd(xs[i])
-                              isio == IsReaderTy(Nd(a.r).ty) \/ IsWriterTy(Nd(a.r).ty)
-                              r == IF isio THEN R(0) ELSE EvalTop(a.r, C)
-                              rest == ArgVals(xs, i + 1, C)
-                          IN [v |-> <<[n |-> a.c, v |-> r.v]>> \o rest.v, f |-> r.f \cup rest.f]
-ArgFun(seq) == [x \in { seq[i].n : i \in 1..Len(seq) } |-> (CHOOSE p \in { seq[i] : i \in 1..Len(seq) } : p.n = x).v]
-
-\* parameter refinements of a user call
-ParamViol(f, argf) == \E i \in 1..Len(f.params) :
-    LET p == f.params[i] IN IsNumTy(p.ty) /\ p.n \in DOMAIN argf /\ ~InRange(argf[p.n], TyRange(p.ty))
 
 \* Enter (or resume) user function g with argument function argf.
 Enter(g, argf, fr) ==
@@ -560,7 +555,7 @@ DoCall(s, fr) ==
                     ELSE /\ stack' = SubSeq(stack, 1, Len(stack) - 1) /\ saved' = sv /\ mode' = "unwind"
                          /\ status' = ShortWrite /\ retv' = 0
                          /\ UNCHANGED <<pi, th, src, dst, disabled, active, fault, ncalls, hist, fuel, pend>>
-       ELSE IF Nd(recvE).a = "" /\ Nd(recvE).c = "this" /\ (\E i \in 1..Len(P.funcs) : P.funcs[i].name = meth)
+       ELSE IF Nd(recvE).a = "" /\ Nd(recvE).c = "this" /\ (meth \in DOMAIN P.fmap)
        THEN LET g == FuncRec(meth)
                 av == ArgVals(call.x, 1, C)
             IN IF av.f # {} THEN Fault(FirstOf(av.f)) ELSE Enter(g, ArgFun(av.v), fr)
@@ -573,16 +568,16 @@ IsUserOrIOCall(e) ==
     /\ LET sel == Nd(Nd(e).l) rt == Nd(sel.l).ty IN
        \/ (IsReaderTy(rt) /\ ReadN(sel.c) > 0)
        \/ (IsWriterTy(rt) /\ sel.c = "write_u8")
-       \/ (Nd(sel.l).a = "" /\ Nd(sel.l).c = "this" /\ \E i \in 1..Len(P.funcs) : P.funcs[i].name = sel.c)
+       \/ (Nd(sel.l).a = "" /\ Nd(sel.l).c = "this" /\ sel.c \in DOMAIN P.fmap)
 
 \* which block of an if / else-if chain is entered: <<node, "z"|"y">> or <<>>; faults in conditions surface as <<"fault", s>>
 RECURSIVE IfTarget(_, _)
 IfTarget(i, C) ==
     LET c == EvalTop(Nd(i).m, C) IN
-    IF c.f # {} THEN <<0, FirstOf(c.f)>>
-    ELSE IF c.v = 1 THEN <<i, "z">>
+    IF c.f # {} THEN [k |-> "fault", f |-> FirstOf(c.f)]
+    ELSE IF c.v = 1 THEN [k |-> "blk", o |-> i, w |-> "z"]
     ELSE IF Nd(i).r # 0 THEN IfTarget(Nd(i).r, C)
-    ELSE IF Len(Nd(i).y) > 0 THEN <<i, "y">> ELSE <<>>
+    ELSE IF Len(Nd(i).y) > 0 THEN [k |-> "blk", o |-> i, w |-> "y"] ELSE [k |-> "none"]
 
 \* pop control entries down to (and including) the loop `lp`
 RECURSIVE PopTo(_, _)
@@ -609,25 +604,22 @@ Step ==
                IN IF ff # {} THEN Fault([k |-> "fact", d |-> ToString(s) \o ":" \o ToString(FirstOf(ff))])
                   ELSE CASE n.k = "Var" -> stack' = SetTop(Advance(fr)) /\ UNCHANGED <<pi, th, saved, src, dst, mode, status, retv, disabled, active, fault, ncalls, hist, pend>> /\ fuel' = fuel - 1
                          [] n.k = "Assert" ->
-                              LET r == EvalTop(n.r, C) IN
+                              LET r == EvalTop(n.r, NoRc(C)) IN
                               IF r.f = {} /\ r.v # 1 THEN Fault([k |-> "fact", d |-> "assert " \o ToString(s)])
                               ELSE stack' = SetTop(Advance(fr)) /\ UNCHANGED <<pi, th, saved, src, dst, mode, status, retv, disabled, active, fault, ncalls, hist, pend>> /\ fuel' = fuel - 1
                          [] n.k = "Assign" ->
-                              LET rv == IF n.l # 0 /\ Nd(n.l).a = "[" THEN RangeViol(Nd(n.l).r, C) ELSE {}
-                              IN IF IsUserOrIOCall(n.r)
-                                 THEN DoCall(s, fr) /\ fuel' = fuel     \* (fuel UNCHANGED inside)
-                                 ELSE LET v == EvalTop(n.r, C)
-                                          viol == RangeViol(n.r, C) \cup rv
-                                      IN IF v.f # {} THEN Fault(FirstOf(v.f))
-                                         ELSE IF viol # {} THEN Fault([k |-> "range", d |-> ToString(FirstOf(viol))])
-                                         ELSE FinishAssign(s, v.v, fr) /\ fuel' = fuel
+                              IF IsUserOrIOCall(n.r)
+                              THEN DoCall(s, fr) /\ fuel' = fuel     \* (fuel UNCHANGED inside)
+                              ELSE LET v == EvalTop(n.r, C) IN
+                                   IF v.f # {} THEN Fault(FirstOf(v.f))
+                                   ELSE FinishAssign(s, v.v, fr) /\ fuel' = fuel
                          [] n.k = "If" ->
                               LET t == IfTarget(s, C) IN
-                              IF t # <<>> /\ t[2] \notin {"z", "y"} THEN Fault(t[2])
-                              ELSE IF t = <<>> THEN stack' = SetTop(Advance(fr)) /\ UNCHANGED <<pi, th, saved, src, dst, mode, status, retv, disabled, active, fault, ncalls, hist, pend>> /\ fuel' = fuel - 1
-                              ELSE stack' = SetTop(PushCtl(fr, t[1], t[2])) /\ UNCHANGED <<pi, th, saved, src, dst, mode, status, retv, disabled, active, fault, ncalls, hist, pend>> /\ fuel' = fuel - 1
+                              IF t.k = "fault" THEN Fault(t.f)
+                              ELSE IF t.k = "none" THEN stack' = SetTop(Advance(fr)) /\ UNCHANGED <<pi, th, saved, src, dst, mode, status, retv, disabled, active, fault, ncalls, hist, pend>> /\ fuel' = fuel - 1
+                              ELSE stack' = SetTop(PushCtl(fr, t.o, t.w)) /\ UNCHANGED <<pi, th, saved, src, dst, mode, status, retv, disabled, active, fault, ncalls, hist, pend>> /\ fuel' = fuel - 1
                          [] n.k = "While" ->
-                              LET c == EvalTop(n.m, C)
+                              LET c == EvalTop(n.m, NoRc(C))      \* (ranges cached in a loop condition belong to one proving site)
                                   first == s \notin fr.loops
                                   badinv == FalseAsserts(s, IF first THEN {"inv", "pre"} ELSE {"inv"}, C)
                               IN IF c.f # {} THEN Fault(FirstOf(c.f))
@@ -647,9 +639,7 @@ Step ==
                                       ELSE stack' = SetTop(Advance([fr2 EXCEPT !.loops = @ \ {lp}])) /\ UNCHANGED <<pi, th, saved, src, dst, mode, status, retv, disabled, active, fault, ncalls, hist, pend>> /\ fuel' = fuel - 1
                          [] n.k = "Ret" ->
                               LET v == IF n.l = 0 THEN R(0) ELSE EvalTop(n.l, C)
-                                  viol == IF n.l = 0 THEN {} ELSE RangeViol(n.l, C)
                               IN IF v.f # {} THEN Fault(FirstOf(v.f))
-                                 ELSE IF viol # {} THEN Fault([k |-> "range", d |-> ToString(FirstOf(viol))])
                                  ELSE IF n.a = "yield"
                                  THEN Suspend(Advance(fr), v.v) /\ fuel' = fuel
                                  ELSE IF f.eff = "?" THEN Deliver(fr, "ret", v.v, 0) /\ fuel' = fuel
